@@ -9,7 +9,7 @@ from . import _ws
 
 ID = 'C10'
 HASHSEED_SENSITIVE = True
-TIERS = {'quick': {'seeds': 8000, 'seconds': 45, 'determinism': 400},
+TIERS = {'quick': {'seeds': 8000, 'seconds': 40, 'determinism': 200},
          'thorough': {'seconds': 900, 'determinism': 4000, 'minimise_s': 120}}
 RULE = ('generated layer DAGs (<= 6 nodes, class and instance layers, adversarial names: '
         'prefix-related, differently cased, sorting differently as tuples vs strings, several '
